@@ -227,7 +227,7 @@ func ruleReduceCountFromOperand(w *World, r *RuleResult) {
 
 func init() {
 	register(&Rule{ID: "C03.R9", Min: 3,
-		Text: "a trap never costs the conditions: no Context operation returns the empty Condition together with the error of an inner step that ran on a working context carrying the caller's own traps (a copy of the receiver whose Traps field was not cleared) — such an error is a trapped condition of the caller, and is owed the flags that occurred; inner steps run on copies of BaseContext or with Traps = 0, and the closing goError applies the caller's traps to everything (Log10(2) with Inexact trapped returned (0, \"inexact\"))",
+		Text: "a trap never costs the conditions: no Context operation returns the empty Condition together with the error of an inner step that ran on a working context carrying the caller's own traps (a copy of the receiver whose Traps field was not cleared) — such an error is a trapped condition of the caller, and is owed the flags that occurred; inner steps run on working contexts whose Traps are cleared (a copy of BaseContext still traps Overflow, Underflow and Subnormal: a negligible series term below the package limits would fail the operation), and the closing goError applies the caller's traps to everything (Log10(2) with Inexact trapped returned (0, \"inexact\"))",
 		Run:  ruleTrapKeepsConditions})
 }
 
@@ -299,8 +299,11 @@ func ruleTrapKeepsConditions(w *World, r *RuleResult) {
 					r.ok(key, w.instrPos(rt), "the step's context is not a copy made in this function: not decided for this shape", false)
 					continue
 				}
-				if p, fromP := ctor.fromParam(); !fromP || p != recv {
-					r.ok(key, w.instrPos(rt), "the step ran on a copy of "+w.exprOf(f, ctor.Src).String()+", not under the caller's traps: its error is an internal failure", true)
+				fromCaller := false
+				if p, fromP := ctor.fromParam(); fromP && p == recv {
+					fromCaller = true
+				} else if !ctor.fromBaseContext() {
+					r.ok(key, w.instrPos(rt), "the step ran on a copy of "+w.exprOf(f, ctor.Src).String()+": not decided for this shape", false)
 					continue
 				}
 				var base ssa.Value = ctor.Call
@@ -314,7 +317,9 @@ func ruleTrapKeepsConditions(w *World, r *RuleResult) {
 						inherits = true
 					}
 				}
-				if inherits {
+				if inherits && !fromCaller {
+					r.bad(key, w.instrPos(rt), fmt.Sprintf("the step runs on a copy of BaseContext that still carries BaseContext's traps (Traps = %s): a condition of an intermediate value — a series term below 1E-100000, a difference that rounds up past 1E+100000 — then fails the whole operation with an empty Condition, whatever the caller traps: Ln(1.000…01) with 33339 zeros at Precision 10 returned (0, \"underflow, subnormal\") where 1.000000000E-33340 is required, Ln(99999999E+99993) at Precision 5 returned (0, \"overflow\"); the inner steps run with Traps = 0 and only an exponent beyond the package limits can fail them", strings.Join(vals, " | ")))
+				} else if inherits {
 					r.bad(key, w.instrPos(rt), fmt.Sprintf("the step runs on a copy of the caller's context that still carries the caller's traps (Traps = %s): when one of them fires inside the step, the operation returns the error with an empty Condition — Log10(2) at Precision 5 with Inexact trapped gave (0, \"inexact\") instead of (Inexact|Rounded, \"inexact\"), and a condition of an intermediate value (a subnormal series term) becomes a spurious error of the operation", strings.Join(vals, " | ")))
 				} else {
 					r.ok(key, w.instrPos(rt), "the working context's Traps are cleared before the step: only an exponent outside the package limits can fail it", true)
